@@ -217,7 +217,7 @@ pub fn case(t: &[u8], refs: &Refs, out: &mut Vec<Violation>) -> u64 {
 }
 
 pub fn tokens() -> Vec<Vec<u8>> {
-	let mut v: Vec<Vec<u8>> = ["data:", "dat", ":", ",", ";", "base64", "base64,", "a", "/", "#", "?", "%41", "%", "=", "A", " ", "QQ==", "+"].iter().map(|s| domains::b(s)).collect();
+	let mut v: Vec<Vec<u8>> = ["data:", "dat", ":", ",", ";", "base64", "base64,", "BASE64,", "bAse64", "a", "/", "#", "?", "%41", "%", "=", "A", " ", "QQ==", "+"].iter().map(|s| domains::b(s)).collect();
 	v.push(vec![0xC3, 0xA9]); // raw non-ASCII bytes
 	v
 }
@@ -231,12 +231,12 @@ struct Slot {
 pub fn run(ctx: &Ctx) -> Report {
 	let refs = Refs::new(&ctx.root);
 	let mut total = Report::new();
-	total.rule = "all sequences of <= n tokens over {data: dat : , ; base64 base64, a / # ? %41 % = A SP QQ== + é(raw bytes)} as byte strings: both constructors and four string routes agree; acceptance implies URI validity (reference DFA) and the data-URL shape; for accepted values borrowed, owned and owned-through-Deref views (media_type, is_base_64_encoded, encoded_data, parts, decoded_data) coincide and reassemble the text; decoded data equals an independent RFC 4648 decoder; a watchdog turns a non-terminating accessor into a violation; non-trivial = distinct byte string".into();
+	total.rule = "all sequences of <= n tokens over {data: dat : , ; base64 base64, BASE64, bAse64 a / # ? %41 % = A SP QQ== + é(raw bytes)} as byte strings: both constructors and four string routes agree; acceptance implies URI validity (reference DFA) and the data-URL shape; for accepted values borrowed, owned and owned-through-Deref views (media_type, is_base_64_encoded, encoded_data, parts, decoded_data) coincide and reassemble the text; decoded data equals an independent RFC 4648 decoder; a watchdog turns a non-terminating accessor into a violation; non-trivial = distinct byte string".into();
 	let n = ctx.pick(5usize, 6usize);
 	let toks = tokens();
 	let shards = domains::raw_shard_count(toks.len());
 	let slots: Arc<Vec<Slot>> = Arc::new((0..shards).map(|_| Slot { current: Mutex::new(None), beat: AtomicU64::new(0) }).collect());
-	// watchdog: a case that does not finish within 2 s is a violation (borrowed accessors are unbounded loops)
+	// watchdog: a case that does not finish within 20 s is a violation (borrowed accessors are unbounded loops)
 	let wd_slots = slots.clone();
 	let root = ctx.root.clone();
 	let done = Arc::new(std::sync::atomic::AtomicBool::new(false));
@@ -249,12 +249,12 @@ pub fn run(ctx: &Ctx) -> Report {
 				let b = s.beat.load(Ordering::Relaxed);
 				if b != last[i].0 {
 					last[i] = (b, Instant::now());
-				} else if last[i].1.elapsed() > Duration::from_secs(3) {
+				} else if last[i].1.elapsed() > Duration::from_secs(20) {
 					if let Some(t) = s.current.lock().unwrap().clone() {
 						let dir = root.join("replays").join("C18");
 						let _ = std::fs::create_dir_all(&dir);
 						let path = dir.join(format!("hang-{:016x}.json", crate::engine::fnv(&t)));
-						let v = Violation::new("C18", "data-url", "hang", json!({"text": bytes_json(&t)})).obs("no result within 3 s").exp("terminates");
+						let v = Violation::new("C18", "data-url", "hang", json!({"text": bytes_json(&t)})).obs("no result within 20 s").exp("terminates");
 						let _ = std::fs::write(&path, serde_json::to_string_pretty(&v.to_json()).unwrap());
 						println!("VIOLATION property=C18 replay={}", path.display());
 						std::process::exit(1);
@@ -331,8 +331,8 @@ pub fn replay(ctx: &Ctx, _check: &str, input: &Value) -> Vec<Violation> {
 		case(&t2, refs, &mut out);
 		let _ = tx.send(out);
 	});
-	match rx.recv_timeout(Duration::from_secs(3)) {
+	match rx.recv_timeout(Duration::from_secs(20)) {
 		Ok(v) => v,
-		Err(_) => vec![Violation::new("C18", "data-url", "hang", json!({"text": bytes_json(&t)})).obs("no result within 3 s").exp("terminates")],
+		Err(_) => vec![Violation::new("C18", "data-url", "hang", json!({"text": bytes_json(&t)})).obs("no result within 20 s").exp("terminates")],
 	}
 }
